@@ -55,6 +55,28 @@ theorem nolift_val {env : Env} {bl : List Block} {e : Expr} (hl : lifts e = fals
   · rw [h2 env s, ← eval_store_of_not_lifts env e hl s]
   · rw [eval_store_of_not_lifts env e hl s]; exact agreeU.refl _
 
+theorem mayEff_nocall : ∀ (e : Expr), mayEff e = false → anyCall e = false
+  | .var _, _ | .num _, _ | .bool _, _ => rfl
+  | .call0 _, h => by simp [mayEff] at h
+  | .un o e, h => by
+    simp only [mayEff, Bool.or_eq_false_iff] at h
+    have := mayEff_nocall e h.2
+    cases o <;> simp_all [anyCall]
+  | .bi _ _ _, h => by simp [mayEff] at h
+  | .cmp2 .., h => by simp [mayEff] at h
+  | .and l r, h => by
+    simp only [mayEff, Bool.or_eq_false_iff] at h
+    simp [anyCall, mayEff_nocall l h.1, mayEff_nocall r h.2]
+  | .or l r, h => by
+    simp only [mayEff, Bool.or_eq_false_iff] at h
+    simp [anyCall, mayEff_nocall l h.1, mayEff_nocall r h.2]
+  | .ite t b o, h => by
+    simp only [mayEff, Bool.or_eq_false_iff] at h
+    simp [anyCall, mayEff_nocall t h.1.1, mayEff_nocall b h.1.2, mayEff_nocall o h.2]
+  | .walrus _ e, h => by
+    simp only [mayEff] at h
+    simp [anyCall, mayEff_nocall e h]
+
 theorem disjoint_spec {a b : List Var} (h : disjoint a b = true) : ∀ x ∈ a, x ∉ b := by
   intro x hx; simp only [disjoint, List.all_eq_true] at h; simpa using h x hx
 
@@ -528,7 +550,7 @@ theorem sem_bi {env : Env} (o : BiOp) {l r : Expr} (ihl : SemE env l) (ihr : Sem
       · intro hlr
         rw [hlr, Bool.true_and] at hc
         simp only [needBind, Bool.or_eq_false_iff, Bool.and_eq_false_iff, Bool.not_eq_eq_eq_not, Bool.not_false] at hc
-        exact ⟨hc.1, disjoint_spec hc.2⟩
+        exact ⟨hc.1.imp (mayEff_nocall _) (mayEff_nocall _), disjoint_spec hc.2⟩
   generalize preBind (lifts r && needBind (bld l .val b σ).1 r) (bld l .val b σ).1 (bld l .val b σ).2.1
     (bld l .val b σ).2.2 = p at *
   obtain ⟨hp1, hp2, hp3⟩ := hprops
@@ -760,7 +782,7 @@ theorem preBind_props {c : Bool} {lA r : Expr} (b : Nat) {σa : BState} (hur : u
     intro hlr
     have hn := hc rfl hlr
     simp only [needBind, Bool.or_eq_false_iff, Bool.and_eq_false_iff, Bool.not_eq_eq_eq_not, Bool.not_false] at hn
-    exact ⟨hn.1, disjoint_spec hn.2⟩
+    exact ⟨hn.1.imp (mayEff_nocall _) (mayEff_nocall _), disjoint_spec hn.2⟩
 
 theorem atomic_nocall {e : Expr} (h : atomicSyn e = true) : anyCall e = false ∧ writes e = [] ∧ lifts e = false := by
   cases e <;> simp_all [atomicSyn, anyCall, writes, lifts]
@@ -815,7 +837,7 @@ theorem sem_cmp2 {env : Env} (o1 o2 : CmpOp) {l mid r : Expr} (ihl : SemE env l)
         | true =>
           rw [ht, Bool.true_and] at hc
           simp only [needBind, Bool.or_eq_false_iff, Bool.and_eq_false_iff, Bool.not_eq_eq_eq_not, Bool.not_false] at hc
-          exact ⟨hc.1, disjoint_spec hc.2⟩
+          exact ⟨hc.1.imp (mayEff_nocall _) (mayEff_nocall _), disjoint_spec hc.2⟩
         | false =>
           simp only [Bool.or_eq_false_iff, Bool.not_eq_eq_eq_not, Bool.not_false] at ht
           obtain ⟨h1, h2, _⟩ := atomic_nocall ht.2
